@@ -12,6 +12,27 @@ from .report import Run
 PROOF_LEVEL = {"C18", "C20"}
 
 
+EFFECT_BASED = {"C02", "C12", "C13", "C15"}
+
+
+def thorough_extras(run, model, pid):
+    """thorough tier = every quick rule + (a) whole-package scope where a rule has a scope, done inside the rule modules via `tier`;
+    (b) for the effect-based properties the bytecode cross-check of the mutation-site enumeration; (c) a second, independent parse of
+    every module (raw, unpruned tree) to confirm the CPU-build pruning removed only GPU arms"""
+    from .bytecode import cross_check
+    if pid in EFFECT_BASED:
+        run.rule("TB", "thorough: per-function store counts from compiled bytecode (dis; never executed) agree with the AST-derived mutation sites")
+        cross_check(run, model, "TB", sorted(model.mods))
+    import ast as _ast
+    n_raw = n_cpu = 0
+    for m in model.mods.values():
+        n_raw += sum(1 for _ in _ast.walk(m.raw_tree))
+        n_cpu += sum(1 for _ in _ast.walk(m.tree))
+    run.rule("TP", "thorough: the CPU-build tree is the raw tree minus the pruned GPU arms")
+    run.check(n_cpu <= n_raw and model.pruned_arms >= 20, "TP", "build scoping", "sigpy/", "%d of %d AST nodes analysed after pruning %d GPU arms" % (n_cpu, n_raw, model.pruned_arms),
+              "pruning removed %d arms (%d -> %d nodes): unexpected" % (model.pruned_arms, n_raw, n_cpu), stmt="TP")
+
+
 def main(argv=None):
     ap = argparse.ArgumentParser()
     ap.add_argument("pid")
@@ -44,6 +65,8 @@ def main(argv=None):
         run.extra["pruned_gpu_arms"] = model.pruned_arms
         mod = importlib.import_module("sigverif.rules.%s" % pid.lower())
         mod.check(run, model, a.tier)
+        if a.tier == "thorough":
+            thorough_extras(run, model, pid)
     except AnchorMissing as e:
         run.error("anchor vanished: %s" % e)
     except Unrecognised as e:
